@@ -116,16 +116,31 @@ def check_crashes(res, ctx, jobs):
     st = ctx["stats"]
     hcases, m1 = [], []
     stales = [j[8] if len(j) > 8 else None for j in jobs]
-    jobs = [j[:8] for j in jobs]
+    firsts = [j[9] if len(j) > 9 else None for j in jobs]
+    links = [j[10] if len(j) > 10 else None for j in jobs]      # replay: (symlink, hardlink) as recorded
+    jobs = [list(j[:8]) for j in jobs]
+    # an earlier run of the same write killed at a step boundary: what it leaves behind is the starting state of
+    # the modelled write (the live file is the old or - after the rename - the new content; the temporary file
+    # holds nothing yet, or everything)
+    for k_, fc in enumerate(firsts):
+        if fc is not None:
+            new_ = jobs[k_][3]
+            if fc == "after_rename":
+                jobs[k_][2] = new_
+                stales[k_] = None
+            else:
+                stales[k_] = "" if fc == "after_create" else render(new_)
+    jobs = [tuple(j) for j in jobs]
     for (truth, y, old, new, today, avail, spec, lookups), stale in zip(jobs, stales):
         hcases.append({"truth": [dict(o) for o in truth], "year": y,
                        "old": [[d, s] for d, s in old] if old is not None else None,
                        "new": [[d, s] for d, s in new], "crash": spec, "today": today, "avail": avail,
-                       "lookups": lookups, "stale_tmp": stale,
+                       "lookups": lookups, "stale_tmp": stale if firsts[len(hcases)] is None else None,
+                       "first_crash": firsts[len(hcases)],
                        # every third job over an existing year: the live name is a symbolic link to the file
-                       "live_symlink": bool(old is not None and len(hcases) % 3 == 2),
+                       "live_symlink": bool(old is not None and len(hcases) % 3 == 2) if links[len(hcases)] is None else links[len(hcases)][0],
                        # ... every third: it has a second hard link
-                       "live_hardlink": bool(old is not None and len(hcases) % 3 == 1)})
+                       "live_hardlink": bool(old is not None and len(hcases) % 3 == 1) if links[len(hcases)] is None else links[len(hcases)][1]})
         if hcases[-1]["live_symlink"]:
             st["live-file-is-symlink"] += 1
         if hcases[-1]["live_hardlink"]:
@@ -354,6 +369,13 @@ def run(res, ctx):
         for spec in ["", "", STEPS[PROC][-1], "bytes:%d" % rng.randrange(total + 1)]:
             jobs.append((truth, y, old, new, today, avail, spec,
                          pick_lookups(rng, new, total - 1) + [longer[-1][0]], stale))
+        # two interrupted writes in a row: the first killed at each step boundary, the second anywhere
+        for fc in STEPS[PROC]:
+            if fc.startswith("bytes"):
+                continue
+            for spec in ["", "bytes:%d" % rng.randrange(1, total), "bytes:%d" % rng.randrange(1, total), STEPS[PROC][0]]:
+                off = int(spec[6:]) if spec.startswith("bytes:") else total - 1
+                jobs.append((truth, y, old, new, today, avail, spec, pick_lookups(rng, new, off), None, fc))
         if tier == "thorough" and k == 0:
             offsets = list(range(total + 1))       # every byte offset of a 30-row year
         else:
@@ -425,5 +447,7 @@ def replay(res, ctx, path):
     truth = [R.load_obs(o) for o in hc["truth"]]
     old = [tuple(x) for x in hc["old"]] if hc["old"] is not None else None
     new = [tuple(x) for x in hc["new"]]
-    check_crashes(r2, ctx, [(truth, hc["year"], old, new, hc["today"], hc["avail"], hc["crash"], hc["lookups"])])
+    check_crashes(r2, ctx, [(truth, hc["year"], old, new, hc["today"], hc["avail"], hc["crash"], hc["lookups"],
+                             hc.get("stale_tmp"), hc.get("first_crash"),
+                             (bool(hc.get("live_symlink")), bool(hc.get("live_hardlink"))))])
     return R.replay_report(r2, ctx, "crash at %s" % (hc["crash"] or "no crash"))
